@@ -473,6 +473,9 @@ def chunk_codec_facts(run):
     ok = False
     for n in walk_local(parse.node):
         o = oriented(n.test, lambda e: dotted(e) in sizevars) if isinstance(n, ast.If) else None
+        if isinstance(n, ast.If) and dotted(n.test) in sizevars and n.orelse:
+            # `if size: <chunk data> else: <last chunk>`
+            ok = ok or any(isinstance(c, ast.Call) and (dotted(c.func) or "").endswith("parseLeader") for st in n.orelse for c in ast.walk(st))
         if o and o[1] == "Eq" and getattr(o[2], "value", 1) == 0:
             ok = any(isinstance(c, ast.Call) and (dotted(c.func) or "").endswith("parseLeader") for st in n.body for c in ast.walk(st))
     facts.append(("chunk:last-chunk-trailers", ok, run.site(parse), "" if ok else "the zero-size chunk does not parse trailers with parseLeader"))
